@@ -25,7 +25,9 @@ BIN = os.path.join(pl.CACHE, "target-macro", "debug", "harness_macro")
 EXTRA_LITS = ["1e-17", "1e-18", "0.00000000000000001", "0.000000000000000011", "3e-16", "3.0000000000000001e-16",
               "30856775814913673", "30856775814913672", "9007199254740993", "9007199254740992.", "1000000000000000000000000",
               "1e24", "4294967296", "2147483648", "0.1", "0.10", "1E2", "100", "1_000", "0.5e1", "5", "123456789.123456789",
-              "1.0000000000000002", "1.0000000000000001", "0.9999999999999999", "1"]
+              "1.0000000000000002", "1.0000000000000001", "0.9999999999999999", "1",
+              # a point AND an exponent, digits ending in zeros on either side of the `e`
+              "1.0e-10", "1.0e10", "2.50e-10", "1.20e20", "10.0e0", "1.00E+10", "0.10e1", "100e-10", "1e-10", "1e10"]
 
 
 def build():
